@@ -415,3 +415,19 @@ Qed.
 
 Example offsets_example : offsets_from 0 [3; 1; 4] = [0; 3; 4].
 Proof. vm_compute. reflexivity. Qed.
+
+(* Vela's closed form of the SAME padding is the reference's (output extent = ceil (input / stride)) *)
+Theorem needed_total_padding_is_reference_lemma input stride kernel :
+  0 < stride -> 0 <= input -> needed_total_padding input stride kernel = tflite_total_padding input stride kernel.
+Proof.
+  intros Hs Hi. unfold needed_total_padding, tflite_total_padding.
+  pose proof (Z.div_mod input stride ltac:(lia)) as Hdm. pose proof (Z.mod_pos_bound input stride Hs) as Hb.
+  set (q := input / stride) in *. set (r := input mod stride) in *. clearbody q r.
+  destruct (Z.eqb_spec r 0) as [Hr|Hr].
+  - subst r. assert (Hq : (input + stride - 1) / stride = q).
+    { symmetry. apply Z.div_unique with (r := stride - 1); [lia | lia]. }
+    rewrite Hq. f_equal. nia.
+  - assert (Hq : (input + stride - 1) / stride = q + 1).
+    { symmetry. apply Z.div_unique with (r := r - 1); [lia | nia]. }
+    rewrite Hq. f_equal. nia.
+Qed.
